@@ -193,7 +193,7 @@ def strategy():
 
 
 def run_shard(ctx):
-    n = 1200 if ctx.tier == "quick" else 15000
+    n = 1200 if ctx.tier == "quick" else 30000
 
     def body(case):
         r = check(case)
